@@ -4,7 +4,8 @@ package otto
 
 // C17: Copy() gives an equivalent runtime (same observations) that is fully
 // independent (a mutation on either side is invisible on the other), for a
-// heap with closures, prototype chains, accessors, bound functions, an
+// heap with closures (function, with and catch scopes), prototype chains,
+// accessors, bound functions (bound this and bound object arguments), an
 // arguments object and frozen objects, whose numeric content is symbolic.
 const verifCopySetup = `
 var base = {inherited: x0};
@@ -19,10 +20,14 @@ Array.prototype.extra = function(){ return x0 };
 var mapped = (function(a, b){ return {args: arguments, setA: function(v){ a = v }, getA: function(){ return a }} })(x1, x2);
 function shadow(arguments){ return function(){ return arguments } }
 var sh = shadow(x2);
+var boundArg = function(p, q){ return p.deep + q }.bind(null, o.nested);
+var wc = (function(){ var local = x1; var env = {w: x2}; with (env) { return {get: function(){ return [w, local, x0] }, set: function(v){ local = v; w = v }} } })();
+var cc; try { throw x0 } catch (e) { cc = {get: function(){ return e }, set: function(v){ e = v }} }
 function observe(){
   return [o.a, o.inherited, o.nested.deep, o.nested.list.length, o.nested.list[0], 2 in o.nested.list, o.acc,
           counter.get(), args.length, args[0], args[1], bound(1), Object.isFrozen(frozen), frozen.f,
-          Object.keys(o).join(','), [].extra(), Object.getPrototypeOf(o) === base, typeof Math.max, sh(), mapped.args[0], mapped.getA(), mapped.args.length, 0 in mapped.args];
+          Object.keys(o).join(','), [].extra(), Object.getPrototypeOf(o) === base, typeof Math.max, sh(), mapped.args[0], mapped.getA(), mapped.args.length, 0 in mapped.args,
+          boundArg(1), wc.get()[0], wc.get()[1], wc.get()[2], cc.get()];
 }
 `
 
@@ -48,6 +53,9 @@ var verifCopyMutations = []string{
 	"delete mapped.args[0]; mapped.setA(m)",
 	"delete o.nested; o.late = m",
 	"bound = null; delete frozen.f",
+	"wc.set(m)",
+	"cc.set(m)",
+	"x0 = m",
 }
 
 func VerifH_C17_copy() {
